@@ -89,6 +89,20 @@ def gen_ops(tier, rng):
         for name in rng.sample(NAMES, 6):
             yield "cont.pairs", "contscore %s %s %s %s %s %s" % (name, b, xr(t), xr(u), xvec(obs), xvec(fcst))
         yield "cont.abcd", "abcd %s %s %s %s %s" % (b, xr(t), xr(u), xvec(obs), xvec(fcst))
+    # several scores one after the other on ONE Data object, the events differing in the bin type only (same thresholds,
+    # values exactly on them): a table computed for `above` must not be handed out for `above=`
+    for _ in range(120 if tier == "quick" else 2500):
+        L = rng.choice([2, 3, 5, 8])
+        t = rng.choice([0.0, 0.5, 1.0, 2.0])
+        u = t + rng.choice([0.5, 1.0])
+        pool = [t, u, t, u, t - 0.5, (t + u) / 2, u + 1]
+        obs = [rng.choice(pool) for _ in range(L)]
+        fcst = [rng.choice(pool) for _ in range(L)]
+        items = []
+        for _k in range(rng.choice([2, 3, 4])):
+            items += [rng.choice(NAMES), rng.choice(BINS), xr(t), xr(u)]
+        items += items[:4]
+        yield "cont.sequence", "contseq %s %s %s" % (xvec(obs), xvec(fcst), " ".join(items))
 
 
 def _interval(b, t, u):
@@ -128,6 +142,23 @@ def impl(op):
             guard = common.Unchanged(o_, f_)
             s[0] = m.compute_from_obs_fcst(o_, f_, iv)
             return guard.tag(xr(s[0]))
+        if a[0] == "contseq":
+            import verif.axis
+            import datagen as dg
+            obs, fcst = from_xvec(a[1]), from_xvec(a[2])
+            n = len(obs)
+            I = {"times": [0.0], "leads": [float(k) for k in range(n)], "locs": [(1.0, 50.0, 10.0, 0.0)],
+                 "fields": {"obs": np.array(obs, float).reshape(1, n, 1), "fcst": np.array(fcst, float).reshape(1, n, 1)}}
+            data = dg.build_data(dg.DS([I], {}))
+            out = []
+            for k in range(3, len(a), 4):
+                m = verif.metric.get(a[k])
+                iv = _interval(a[k + 1], from_xr(a[k + 2]), from_xr(a[k + 3]))
+                try:
+                    out.append(_val(m.compute_single(data, 0, verif.axis.No(), None, iv)))
+                except Exception as e:       # noqa: a crash of one score must not hide the others
+                    out.append("EXC:%s" % type(e).__name__)
+            return " ".join(out)
         if a[0] == "abcd":
             m = verif.metric.get("ets")
             iv = _interval(a[1], from_xr(a[2]), from_xr(a[3]))
@@ -188,9 +219,17 @@ def _close(x, y):
         return x == y
 
 
+def _seq_items(op):
+    a = op.split(" ")
+    return ["contscore %s %s %s %s %s %s" % (a[k], a[k + 1], a[k + 2], a[k + 3], a[1], a[2]) for k in range(3, len(a), 4)]
+
+
 def cmp(op, impl_out, model_out):
     if op.startswith("abcd") or op.startswith("contperfect"):
         return impl_out == model_out
+    if op.startswith("contseq"):
+        items, it, mt = _seq_items(op), impl_out.split(" "), model_out.split(" ")
+        return len(items) == len(it) == len(mt) and all(cmp(o, x, y) for o, x, y in zip(items, it, mt))
     return _close(impl_out, model_out)
 
 
@@ -198,6 +237,19 @@ def judge(op, impl_out, spec_out):
     a = op.split(" ")
     if common.mutated_verdict(op, impl_out):
         return common.mutated_verdict(op, impl_out)
+    if a[0] == "contseq":
+        items, toks = _seq_items(op), impl_out.split(" ")
+        if len(items) != len(toks):
+            return ({"kind": "exception", "metric": "contseq"}, "unexpected reply %s" % impl_out[:200])
+        for k, (item, tok) in enumerate(zip(items, toks)):
+            alone = impl(item)            # the same score from fresh arrays, through compute_from_obs_fcst
+            if not (tok == alone or _close(tok, alone)):
+                b = item.split(" ")
+                return ({"kind": "history-dependence", "metric": b[1]},
+                        "%s -b %s computed as score %d of a sequence on one Data object gives %s, computed on its own %s "
+                        "(thresholds %s,%s obs=%s fcst=%s; sequence %s)" % (b[1], b[2], k + 1, tok, alone, b[3], b[4], a[1], a[2],
+                                                                           " ".join(a[3:])[:200]))
+        return None
     if impl_out.startswith("EXC:") or impl_out.startswith("EXIT:"):
         return ({"kind": "exception", "metric": a[1]}, "%s ended in %s" % (op[:200], impl_out))
     if a[0] in ("gencont", "contscore"):
